@@ -6,6 +6,7 @@ import (
 	"os"
 	"regexp"
 	"sync"
+	"unicode/utf8"
 
 	"github.com/reeflective/readline/inputrc"
 	"github.com/reeflective/readline/internal/strutil"
@@ -232,6 +233,12 @@ func (k *Keys) ReadKey() (key rune, isAbort bool) {
 	}()
 
 	switch {
+	case len(k.buf) > 0:
+		// Keys already read (pasted or typed ahead) come first.
+		var size int
+		key, size = utf8.DecodeRune(k.buf)
+		k.buf = k.buf[size:]
+
 	case len(k.macroKeys) > 0:
 		key = k.macroKeys[0]
 		k.macroKeys = k.macroKeys[1:]
